@@ -142,6 +142,8 @@ pub fn run(req: &RunRequest) -> Value {
             virt_cap: Duration::from_secs(900),
             world_oracles: vec!["c02.stream_id_reuse"],
             panic_is_violation: true,
+            rlimit_as: None,
+            alloc_limit: None,
         };
         (setup, move || main(plan))
     })
